@@ -67,6 +67,8 @@ def main():
     if a.replay:
         rep = json.load(open(a.replay))
         case = rep['case']
+        for h in rep.get('history', [])[:-1]:            # a violation found in a sequential pass: its history first, in this process
+            engine.run_case(mod, h['_checker'], h)
         r = engine.run_case(mod, case['_checker'], case)
         hit = [v for v in r.viol if v['clause'] == rep['clause']] or r.viol
         if hit:
